@@ -886,10 +886,14 @@ void Node::note_upload_start(const PendingUploadRequest& request, std::size_t pa
     state.peer_id = request.peer_id;
     state.started_at = std::chrono::steady_clock::now();
     state.payload_size = payload_size;
-    active_uploads_[key] = state;
-
-    const auto peer_key = peer_id_to_string(request.peer_id);
-    active_uploads_per_peer_[peer_key] += 1;
+    // A repeated request for the same chunk by the same peer re-uses the existing slot:
+    // the per-peer counter must only grow when a new map entry appears, otherwise the
+    // single note_upload_end() for that key leaves the counter stuck above zero.
+    const bool inserted = active_uploads_.insert_or_assign(key, state).second;
+    if (inserted) {
+        const auto peer_key = peer_id_to_string(request.peer_id);
+        active_uploads_per_peer_[peer_key] += 1;
+    }
 
     const auto current_active = active_uploads_.size();
     auto peak = peak_active_uploads_.load(std::memory_order_relaxed);
